@@ -13,13 +13,14 @@ from cxxheaderparser.simple import parse_file, parse_string
 TECHNIQUE = "Lean 4: specification theorems for the gcc/pcpp line-marker filters over every segmentation (keep exactly the main file's segments; exact quoted-name match); correspondence on synthetic and real preprocessor output; end-to-end include-graph oracle"
 LEAN_TARGET = "CxxModel.Props.C19"
 THEOREMS = ["Cxx.C19_gcc_filter_spec", "Cxx.C19_pcpp_filter_spec", "Cxx.C19_gcc_marker_exact", "Cxx.C19_pcpp_marker_exact",
-            "Cxx.C19_msvc_filter_spec", "Cxx.C19_msvc_marker_exact", "Cxx.segFilter_spec"]
+            "Cxx.C19_msvc_filter_spec", "Cxx.C19_msvc_marker_exact", "Cxx.segFilter_spec", "Cxx.C19_gcc_filter_top_spec", "Cxx.C19_gcc_escape_injective", "Cxx.C19_gcc_marker_exact_escaped"]
 ANCHORS = ["preprocessor.py:", "dump.py:", "lexer.py:PlyLexer.t_PP_DIRECTIVE"]
 RULE = ("include graphs over generated file names (names that are suffixes/prefixes of one another, sub-directories, blanks), "
         "depth <= 3, macro-only includes, both back ends present in the sandbox (pcpp, g++), retain_all_content on/off, "
         "depfile; plus synthetic marker-segmented outputs for the filter correspondence; non-trivial = main file includes "
         "at least one file whose name is related to its own")
 CARRIED_BY = {
+    "the gcc filter recognises the main file by its name with every backslash doubled (as gcc writes names in line markers); the escaping identifies no two different names, so a marker of another file is never taken for the main file's, whatever the files are called": "theorems C19_gcc_filter_top_spec, C19_gcc_escape_injective, C19_gcc_marker_exact_escaped",
     "filter keeps exactly the main file's segments, in order": "theorems C19_gcc_filter_spec, C19_pcpp_filter_spec, C19_msvc_filter_spec (every segmentation)",
     "main-file test is equality of the quoted name, whatever files are called": "theorems C19_gcc_marker_exact, C19_pcpp_marker_exact, C19_msvc_marker_exact",
     "model filters = _gcc_filter/_pcpp_filter/_msvc_filter": "correspondence `ppfilter` on synthetic and real preprocessor outputs, `ppfilter[msvc]` on synthetic MSVC-format output",
@@ -31,9 +32,23 @@ MODEL_COVERAGE = "_gcc_filter, _pcpp_filter, _msvc_filter (PPFilter.lean)"
 NAMES = ["a.h", "xa.h", "a.hpp", "a.h.in", "sub/a.h", "sub/xa.h", "b.h", "my a.h", "dir x/a.h", "aa.h", "a.hh", "sub/sub2/a.h", "main.h", "amain.h"]
 
 
+# names built from the words the lexer's directive rule looks for, characters a line marker escapes, and other oddities:
+# "whatever the files and directories are called"
+EXOTIC = ["warning.h", "no-warnings/core.h", "define_x.h", "xdefine/a.h", "line.h", "pragma once.h", "include.h", "win\\core.h",
+          "C:\\proj/a.h", "m\\\\x.h", "m\\x.h", "\u00e4.h", "a#b.h", "a%sb.h", "it's.h", "1.h", "a..h", "undef.h", "x warning y.h", "error.h", "endif/a.h"]
+
+
 def make_graph(rng, root):
     """write an include graph; returns (main, files dict name -> decl name, includes dict)"""
     names = rng.sample(NAMES, rng.randint(2, 6))
+    r = rng.random()
+    if r < 0.45:
+        # an exotic main file, sometimes next to an exotic sibling whose name is related to it
+        names[0] = rng.choice(EXOTIC)
+        if r < 0.2:
+            names.insert(1, rng.choice([e for e in EXOTIC if e != names[0]]))
+    elif r < 0.6:
+        names.append(rng.choice(EXOTIC))
     tail_run = rng.random() < 0.6
     if names[0].endswith(".in"):
         names.reverse()  # g++ does not preprocess a main file with an unknown suffix
@@ -224,8 +239,9 @@ def run(ctx):
                 pp = PP.make_pcpp_preprocessor(depfile=__import__("pathlib").Path(dep), deptarget=["tgt"])
                 parse_file(main, options=ParserOptions(preprocessor=pp))
                 txt = open(dep).read()
-                names = txt.replace("\\\n", " ").replace("\\ ", "\x00").split()
-                names = [x.replace("\x00", " ") for x in names]
+                # make-style escaping as the writer documents it: `\\` is a backslash, `\ ` a blank, backslash-newline a break
+                names = txt.replace("\\\n", " ").replace("\\\\", "\x01").replace("\\ ", "\x00").split()
+                names = [x.replace("\x00", " ").replace("\x01", "\\") for x in names]
                 if names[0] != "tgt:":
                     fails.append({"input": {"main": main, "includes": inc}, "diff": "depfile target %r" % names[0]})
                 want = set(os.path.normpath(x) for x in [main] + included)
